@@ -75,7 +75,30 @@ def warm():
     locksim.install_yes_ui()
     # LockDir._remove_pending_dir reports cleanup failures through trace.note
     logging.getLogger("brz").setLevel(logging.WARNING)
+    _known_findings()
     _exercise()
+
+
+_known = None
+
+
+def _known_findings():
+    """Open known findings of this property, read once per batch (in warm(), before the workers fork).  The run
+    goes on past a deviation only if its exact signature is an OPEN entry of known_findings.json; everything
+    else is sim.fail."""
+    global _known
+    if _known is None:
+        import time
+
+        for attempt in range(5):
+            try:
+                _known = findings.load(PROPERTY)
+                break
+            except ValueError:  # the file is being rewritten right now
+                if attempt == 4:
+                    raise
+                time.sleep(0.2)
+    return _known
 
 
 _exercised = False
@@ -284,7 +307,7 @@ def execute(sim, plan):
     world.setup_sim(sim)
     locksim.write_global_config(plan["steal_dead"])
     tokens = locksim.Tokens(sim) if plan.get("real_tokens") else GhostTokens()
-    known = findings.load(PROPERTY)
+    known = _known_findings()
     opname = plan["op"]
     subs = []
     sim.notes["evaluations"] = 0
@@ -391,7 +414,7 @@ def execute(sim, plan):
                     )
 
             # ---- oracle 2: a fresh process can look, acquire (directly / after the matching break), release
-            b = sim.restart_main(f"B{idx}")
+            sim.restart_main(f"B{idx}")
             ldb = lockdir.LockDir(get_transport(c.url), "lock")
             ldb._report_function = lambda *a_, **k_: None
             path = []
